@@ -51,7 +51,7 @@ def match_known(known, prop, ob_id):
             continue
         # (a finding recorded under another property is still the same recorded finding when the
         # function is part of this property's dependency closure)
-        if re.fullmatch(k['obligation'], ob_id):
+        if k.get('obligation') and re.fullmatch(k['obligation'], ob_id):
             return k
     return None
 
@@ -119,6 +119,7 @@ PROP_BOUNDED = {
     'C07': 'harness/c07_bounded.py',
     'C05': 'harness/c05_bounded.py',
     'C06': 'harness/c06_bounded.py',
+    'C08': 'harness/c08_bounded.py',
     'C13': 'harness/c13_bounded.py',
     'C20': 'harness/c20_bounded.py',
 }
@@ -149,7 +150,15 @@ def run_bounded(prop, tier, src=None):
     lines = []
     os.makedirs(os.path.join(ROOT, 'replays'), exist_ok=True)
     seen = set()
+    known = [k for k in load_known() if k.get('status', 'open') == 'open' and k.get('bounded_check')
+             and k.get('property') == prop]
+    known_hits = {}
     for f in info.get('failures', []):
+        kf = next((k for k in known if re.fullmatch(k['bounded_check'], str(f.get('check')))), None)
+        if kf is not None:
+            # a recorded finding (known_findings.json): the stand-in classifies these inputs by their cause itself
+            known_hits.setdefault(kf['what'], []).append(f.get('case'))
+            continue
         key = (f.get('check'), json.dumps(f.get('message'), sort_keys=True), f.get('stream'))
         if key in seen:
             continue
@@ -162,6 +171,12 @@ def run_bounded(prop, tier, src=None):
         lines.append('VIOLATION property=%s replay=%s' % (prop, path))
         if len(lines) >= 5:
             break
+    for what, cases in known_hits.items():
+        print('KNOWN-FINDING: property=%s %s [bounded stand-in %s: %d input(s), e.g. %s]' % (
+            prop, what, script, len(cases), json.dumps(cases[0])[:120]))
+    info['known_findings_seen'] = [{'what': w, 'inputs': len(c)} for w, c in known_hits.items()]
+    info['failures'] = [f for f in info.get('failures', []) if not any(
+        re.fullmatch(k['bounded_check'], str(f.get('check'))) for k in known)]
     return info, lines, []
 
 
